@@ -251,6 +251,10 @@ pub fn bodies(tcx: TyCtxt<'_>) -> J {
         let mut cx = Cx { tcx, typeck, owner };
         let mut j = J::obj();
         j.set("path", J::s(dpath(tcx, owner.to_def_id())));
+        j.set(
+            "dp",
+            J::s(tcx.def_path(owner.to_def_id()).to_string_no_crate_verbose()),
+        );
         j.set("name", J::s(tcx.item_name(owner.to_def_id()).to_string()));
         j.set("dk", J::s(format!("{:?}", dk)));
         j.set("file", J::s(span_file(tcx, body.value.span)));
@@ -467,6 +471,12 @@ impl<'tcx> Cx<'tcx> {
                         let fty = self.typeck.expr_ty(f);
                         if let ty::FnDef(did, args) = fty.kind() {
                             j.set("callee", J::s(dpath(tcx, *did)));
+                            if did.is_local() {
+                                j.set(
+                                    "callee_dp",
+                                    J::s(tcx.def_path(*did).to_string_no_crate_verbose()),
+                                );
+                            }
                             j.set(
                                 "callee_full",
                                 J::s(dpath_args(tcx, *did, args)),
@@ -827,6 +837,10 @@ fn lit_json(lit: &rustc_ast::LitKind, j: &mut J) {
         ByteStr(b, _) | CStr(b, _) => {
             j.set("lit", J::s("bytes"));
             j.set("v", J::s(String::from_utf8_lossy(b.as_byte_str()).to_string()));
+            j.set(
+                "vb",
+                J::Arr(b.as_byte_str().iter().map(|x| J::Int(*x as i128)).collect()),
+            );
         }
         Byte(b) => {
             j.set("lit", J::s("byte"));
